@@ -55,6 +55,40 @@ func ruleR21(c *Ctx) *RuleResult {
 	const rbt, avl, bt = "trees/redblacktree.Tree", "trees/avltree.Tree", "trees/btree.Tree"
 
 	// ---------- red-black ----------
+	// one descent per operation: Put and Remove find their node once — neither calls itself or the other, and no path looks
+	// the key up twice (a Remove that removes the predecessor by a second Remove(predKey) from the root costs
+	// depth(node) + depth(pred) comparisons: past the logarithmic bound for a deep two-child node)
+	for _, nm := range []string{"Put", "Remove"} {
+		fn := fnOf(rbt, nm)
+		var bad []string
+		npaths := 0
+		if fn != nil {
+			for _, g := range c.GC(fn).GCs {
+				npaths++
+				lookups := map[string]bool{}
+				see := func(t *Term) bool {
+					if (t.Op == "do" || t.Op == "call") && (strings.HasSuffix(t.Leaf, "redblacktree.(*Tree).Put") || strings.HasSuffix(t.Leaf, "redblacktree.(*Tree).Remove")) {
+						bad = append(bad, nm+" calls "+lastIdent(t.Leaf)+" on one of its paths (a second descent from the root): "+trunc(guardsString(g), 160))
+					}
+					if t.Op == "call" && (strings.HasSuffix(t.Leaf, ").lookup") || strings.HasSuffix(t.Leaf, ").GetNode") || strings.HasSuffix(t.Leaf, ").Get")) && strings.Contains(t.Leaf, "redblacktree") {
+						lookups[noEpoch(t)] = true
+					}
+					return false
+				}
+				for _, ef := range g.Effects {
+					ef.any(see)
+				}
+				for _, a := range g.Guards {
+					a.any(see)
+				}
+				g.Exit.any(see)
+				if len(lookups) > 1 {
+					bad = append(bad, fmt.Sprintf("%s looks keys up %d times on one path", nm, len(lookups)))
+				}
+			}
+		}
+		add("rbt."+nm+".one-descent", "the red-black "+nm+" descends from the root once: it neither calls Put/Remove again nor looks a key up a second time", fn, bad, fmt.Sprintf("%d paths, at most one lookup each, no re-entry", npaths))
+	}
 	{
 		fn := fnOf(rbt, "Put")
 		var bad []string
